@@ -332,7 +332,19 @@ def check(res, tr, how):
 def run(spec):
     res = Result()
     sc = cons.gen_scenario(spec["seed"], "stop")
-    sc["actions"] = [a for a in sc["actions"] if a[1] == "commit"]  # stops are injected below
+    sc["actions"] = [a for a in sc["actions"] if a[1] in ("commit", "commit_if_running")]  # stops are injected below
+    rng_c = random.Random((spec["seed"] * 48271) ^ 0xC0111)
+    if sc["cfg"]["group"] and rng_c.random() < 0.35:
+        # (own stream) the first commits are refused with a retriable error and the application keeps asking for
+        # commits meanwhile: stop()/shutdown() then meets commits in back-off that were asked for again
+        sc["faults"] = list(sc["faults"]) + [dict(api="OffsetCommit", nth=[0, 1, 2, 3], action=dict(
+            kind="error", code=rng_c.choice((14, 15, 16))))]
+        tt = 0.2
+        while tt < 4.0:
+            sc["actions"].append([round(tt, 3), "commit_if_running"])
+            tt += rng_c.choice((0.11, 0.2, 0.35))
+        sc["actions"].sort(key=lambda a: a[0])
+        res.hit("commit_storms_during_refusals")
     base = run_once(sc)
     check(res, base, None)
     n = max(1, base.w.clock.steps - base.info["step0"])
@@ -343,6 +355,8 @@ def run(spec):
             continue
         k = rng.choice(ks)
         points.setdefault(k, name)
+    for extra_k in base.info["survey"].get("commit_backoff", [])[1:6:2]:
+        points.setdefault(extra_k, "commit_backoff")
     for _ in range(2):
         points.setdefault(rng.randint(0, n), "random")
     sits = []
